@@ -178,9 +178,10 @@ FIXED_ARGS = {
     "zero_res_displacement": {},
     "zero_res_disp_and_velocity": {},
     "correct_me": {},
-    "set_response_times": {"ratios": [25.0, 40.0, 90.0], "as": "list"},
-    "gen_rs_w_times": {"ratios": [30.0, 55.0], "lead0": True},
-    "response_series_w_times": {"ratios": [22.0, 70.0, 150.0, 200.0]},
+    # shortest periods 8, 12 and 6 time steps: each needs a different interpolation factor (3, 2, 4) than the constructor's list
+    "set_response_times": {"ratios": [8.0, 40.0, 90.0], "as": "list"},
+    "gen_rs_w_times": {"ratios": [12.0, 55.0], "lead0": True},
+    "response_series_w_times": {"ratios": [6.5, 70.0, 150.0, 200.0]},
 }
 assert set(FIXED_ARGS) == set(MUTATORS)
 
@@ -188,7 +189,9 @@ assert set(FIXED_ARGS) == set(MUTATORS)
 def _make(cls_name, n, seed=11, dt=0.01):
     a = np.random.RandomState(seed).standard_normal(n) * np.hanning(n) + 0.05
     if cls_name == "acc":
-        return eqsig.AccSignal(a, dt, response_times=np.array([0.2, 0.5, 1.0, 2.0]))
+        # shortest period 3*dt: the object has to interpolate the record (factor 4) for its response spectra, so a cached
+        # integration grid from an earlier period list would show after the periods are changed
+        return eqsig.AccSignal(a, dt, response_times=np.array([0.03, 0.08, 0.5, 2.0]))
     return eqsig.Signal(a, dt)
 
 
@@ -472,6 +475,16 @@ class C04Machine(HM):
           which=st.sampled_from(["set_response_times", "gen_rs_w_times", "response_series_w_times"]))
     def periods(self, ratios, lead0, as_, which):
         self.do(which, {"ratios": ratios, "lead0": lead0, "as": as_})
+
+    @rule(r1=gen.log_uniform(2.0, 19.0), r2=gen.log_uniform(2.0, 60.0),
+          which=st.sampled_from(["set_response_times", "gen_rs_w_times", "response_series_w_times"]))
+    def spectra_periods_spectra(self, r1, r2, which):
+        """read spectra for one (short) minimum period, change the periods, read again: both below and above the
+        20-steps-per-period threshold at which the object interpolates the record"""
+        self.do("set_response_times", {"ratios": [r1, 4 * r1], "lead0": False, "as": "ndarray"})
+        self.do("read", {"names": ["s_a", "s_d"]})
+        self.do(which, {"ratios": [r2, 3 * r2], "lead0": False, "as": "ndarray"})
+        self.do("read", {"names": ["s_a", "s_v", "s_d"]})
 
 
 machine_clause(CLAUSES, "histories", C04Machine, Hist, quick=120, thorough=350, quick_steps=30, thorough_steps=60,
